@@ -64,6 +64,10 @@ fn parse_tree(
         let mode_end = memchr(b' ', text)
             .ok_or_else(|| ObjectFormatException::new_err(("Missing terminator for mode",)))?;
         let text_str = String::from_utf8_lossy(&text[..mode_end]).to_string();
+        // from_str_radix would also accept a leading '+'
+        if !text_str.bytes().all(|c| c.is_ascii_digit()) {
+            return Err(ObjectFormatException::new_err(("invalid mode",)));
+        }
         let mode = u32::from_str_radix(text_str.as_str(), 8)
             .map_err(|e| ObjectFormatException::new_err((format!("invalid mode: {}", e),)))?;
         if strict && text[0] == b'0' {
